@@ -3,6 +3,7 @@ import PromqlVerif.Eng
 import PromqlVerif.Iter
 import PromqlVerif.Table
 import PromqlVerif.Acc
+import PromqlVerif.Coalesce
 open PromqlVerif
 
 structure DState where
@@ -159,6 +160,51 @@ def accView (args : List String) : String :=
     r.getD "bad-op"
   | _ => "bad-op"
 
+/-- `t/id:bits,...` -/
+def parseSV (s : String) : Option (SV Float) :=
+  match s.splitOn "/" with
+  | [t, ids] => do
+    let t ← t.toInt?
+    let xs ← parseIdVec ids
+    some (t, xs)
+  | _ => none
+
+def showSV (sv : SV Float) : String :=
+  toString sv.1 ++ "/" ++ String.intercalate ","
+    ((sv.2.mergeSort fun a b => a.1 ≤ b.1).map fun p => toString p.1 ++ ":" ++ showBits p.2)
+
+def showCo : Except Unit (Option (List (SV Float))) → String
+  | .error _ => "err"
+  | .ok none => "nil"
+  | .ok (some out) => String.intercalate ";" (out.map showSV)
+
+/-- `kernel coalesce <sizes csv> <call>#<call>..`, a call being `child|child|..`, a child `-` (nil),
+`e` (an empty batch) or `step;step;..`: the model of `coalesceOperator.Next` with the children
+arriving in child order, in reverse order, and the merged specification -/
+def coalesceView (args : List String) : String :=
+  match args with
+  | [sizes, calls] =>
+    let r : Option String := do
+      let sizes ← (sizes.splitOn ",").mapM String.toNat?
+      let offs := offsetsOf sizes
+      let calls ← (calls.splitOn "#").mapM fun call =>
+        (call.splitOn "|").mapM fun ch =>
+          if ch == "-" then some (none : Option (List (SV Float)))
+          else if ch == "e" then some (some [])
+          else ((ch.splitOn ";").mapM parseSV).map some
+      let run := fun (rev : Bool) => calls.map fun call =>
+        let arr := (offs.zip call)
+        showCo (coalesceNext (if rev then arr.reverse else arr))
+      let spec := calls.map fun call =>
+        let arr := (offs.zip call).filterMap fun a => a.2.map fun inp => (a.1, inp)
+        match arr with
+        | [] => "nil"
+        | a :: _ => String.intercalate ";" ((mergedSpec (a.2.map (·.1)) arr).map showSV)
+      some ("fwd=" ++ String.intercalate "#" (run false) ++ " rev=" ++ String.intercalate "#" (run true)
+        ++ " spec=" ++ String.intercalate "#" spec)
+    r.getD "bad-op"
+  | _ => "bad-op"
+
 def stepLine (s : DState) (line : String) : DState × Option String :=
   let toks := (line.splitOn " ").filter (· != "")
   match toks with
@@ -189,6 +235,7 @@ def stepLine (s : DState) (line : String) : DState × Option String :=
       | none => ({ s with bad := true }, none)
     | none => ({ s with bad := true }, none)
   | "kernel" :: "acc" :: args => (s, some ("kernel " ++ accView args))
+  | "kernel" :: "coalesce" :: args => (s, some ("kernel " ++ coalesceView args))
   | "kernel" :: "table" :: args => (s, some ("kernel " ++ tableView args))
   | "kernel" :: what :: args => (s, some ("kernel " ++ (if s.bad then "bad-op" else kernelView s what args)))
   | ["eval", view] => (s, some (view ++ " " ++ evalView s view))
